@@ -449,6 +449,61 @@ def cli_filter_edges(run: common.Run) -> None:
                                        expected_by_spec={"encoders": want, "note": "-O -F emits functions for exactly the listed messages"}))
 
 
+        # (a) messages of different parents whose names differ only in letter case (Left.IMU / Right.Imu): -F selects by the
+        #     schema name, exactly; (b) a second compilation INTO THE SAME directory with another filter: the files on disk are
+        #     those of the last command
+        twins = ("proto twins\nmessage Left {\n    message IMU {\n        uint3 a = 1\n    }\n    IMU i = 1\n}\n"
+                 "message Right {\n    message Imu {\n        uint5 b = 1\n    }\n    Imu i = 1\n}\n")
+
+        def encoders(dirname: str) -> list:
+            got = []
+            for fn in sorted(os.listdir(dirname)):
+                if fn.endswith((".c", ".go")):
+                    src = open(os.path.join(dirname, fn)).read()
+                    got += re.findall(r"^int Encode(\w+)\(", src, re.M) + re.findall(r"^func \(m \*(\w+)\) Encode\(\)", src, re.M)
+            return sorted(got)
+
+        for lang in ("c", "go"):
+            d = sc.path(f"twins_{lang}")
+            os.makedirs(d)
+            open(os.path.join(d, "twins.bitproto"), "w").write(twins)
+
+            def compile_to(out: str, *flags: str):
+                os.makedirs(os.path.join(d, out), exist_ok=True)
+                return subprocess.run([common.PY, "-m", "bitproto._main", lang, "twins.bitproto", out, "-q", "-O", *flags], cwd=d, capture_output=True, text=True, env=env)
+
+            compile_to("all")
+            every = encoders(os.path.join(d, "all"))
+            left_inner = [x for x in every if x.startswith("Left") and x != "Left"]
+            right_inner = [x for x in every if x.startswith("Right") and x != "Right"]
+            rep = {"input": {"files": {"twins.bitproto": twins}, "language": lang}}
+            run.evaluated()
+            run.count("cli_filter_case_twins")
+            if len(every) != 4 or len(left_inner) != 1 or len(right_inner) != 1:
+                run.violation(dict(rep, kind="impl-vs-spec", observed_impl={"encoders without -F": every}, expected_by_spec="four messages, four encoders"))
+                continue
+            for fval, want in (("Imu", right_inner), ("IMU", left_inner), ("imu", []), ("Left,Imu", sorted(["Left"] + right_inner))):
+                out = "f_" + fval.replace(",", "_")
+                p = compile_to(out, "-F", fval)
+                got = encoders(os.path.join(d, out))
+                run.evaluated()
+                if p.returncode != 0 or got != want:
+                    run.violation(dict(rep, kind="impl-vs-spec", argv=[lang, "twins.bitproto", "out", "-O", "-F", fval],
+                                       observed_impl={"exit": p.returncode, "encoders": got, "stderr": p.stderr[-200:]},
+                                       expected_by_spec={"encoders": want, "note": "-F selects messages by their schema name, exactly those"}))
+            # same directory, three commands in a row
+            for step, (flags, want) in enumerate(((("-F", "Left"), ["Left"]), ((), every), (("-F", "Right"), ["Right"]))):
+                p = compile_to("same", *flags)
+                got = encoders(os.path.join(d, "same"))
+                run.evaluated()
+                run.count("cli_filter_recompile_same_dir")
+                if p.returncode != 0 or got != want:
+                    run.violation(dict(rep, kind="impl-vs-spec", argv=[lang, "twins.bitproto", "same", "-O", *flags],
+                                       note=f"command {step + 1} of 3 into the same output directory",
+                                       observed_impl={"exit": p.returncode, "encoders": got, "stderr": p.stderr[-200:]},
+                                       expected_by_spec={"encoders": want, "note": "the written files are those of THIS command, whatever an earlier one left there"}))
+
+
 # ------------------------------------------------------------------ C18: deterministic output, fixed shapes
 LONG = "TelemetryAggregationWindowDescriptor"
 DET_SCHEMAS = {
